@@ -36,6 +36,34 @@ type scanScenario struct {
 	Match    string // optional MATCH pattern
 	MaxMut   int
 	MaxSteps int // positions at which a mutation may be placed
+	// Via: the collection is not the one the single-element commands built but what a copying command
+	// made of it before the iteration starts (its table is built by different code)
+	Via string
+}
+
+// scanVia replaces the collection by a copy of itself made by the named command.
+func scanVia(kind, via string, do func(args ...string) vm.Reply) bool {
+	k := scanKey()
+	switch {
+	case kind == "sscan" && via == "SUNIONSTORE":
+		do("SUNIONSTORE", k, k)
+	case kind == "sscan" && via == "SUNIONSTORE2":
+		do("SUNIONSTORE", k, k, "nokey")
+	case kind == "sscan" && via == "SDIFFSTORE":
+		do("SDIFFSTORE", k, k, "nokey")
+	case kind == "sscan" && via == "SINTERSTORE":
+		do("SINTERSTORE", k, k, k)
+	case kind != "scan" && via == "COPY":
+		do("COPY", k, "copy-of-coll")
+		do("DEL", k)
+		do("RENAME", "copy-of-coll", k)
+	case kind != "scan" && via == "RENAME":
+		do("RENAME", k, "renamed-coll")
+		do("RENAME", "renamed-coll", k)
+	default:
+		return false
+	}
+	return true
 }
 
 type scanPlan struct {
@@ -143,6 +171,29 @@ func scanScenarios(tier string) []scanScenario {
 				p.Pool = []scanMut{{false, "*"}, {false, "*3"}, {false, "*8"}}
 			}
 			out = append(out, p)
+			if kind != "scan" && (n == 5 || n == 17 || n == 33) {
+				vias := []string{"COPY", "RENAME"}
+				if kind == "sscan" {
+					vias = append(vias, "SUNIONSTORE", "SUNIONSTORE2", "SDIFFSTORE", "SINTERSTORE")
+				}
+				for _, via := range vias {
+					pv := p
+					pv.Name += "/via-" + via
+					pv.Via = via
+					pv.MaxMut = 1
+					pv.Pool = []scanMut{{true, "z1"}, {false, els[n/2]}, {false, "=" + via}}
+					out = append(out, pv)
+				}
+				// ... and replaced by a copy in the middle of an iteration over the original
+				pr := p
+				pr.Name += "/replaced-by-copy"
+				pr.MaxMut = 1
+				pr.Pool = nil
+				for _, via := range vias {
+					pr.Pool = append(pr.Pool, scanMut{false, "=" + via})
+				}
+				out = append(out, pr)
+			}
 			if n >= 5 && n <= 17 {
 				pm := p
 				pm.Name += "/match"
@@ -264,6 +315,11 @@ func runScanPlan(sc *scanScenario, pl scanPlan) (res scanResult) {
 			} else {
 				rem(p[1])
 			}
+		}
+		if sc.Via != "" && len(present) > 0 && !scanVia(sc.Kind, sc.Via, do) {
+			res = scanResult{Status: "skip"}
+			done = true
+			return
 		}
 		// the iteration starts here
 		ever = map[string]bool{}
@@ -392,6 +448,18 @@ func runScanPlan(sc *scanScenario, pl scanPlan) (res scanResult) {
 					sort.Strings(all)
 					for _, n := range all {
 						rem(n)
+					}
+					lastMutCall = calls
+					mi++
+					continue
+				}
+				if strings.HasPrefix(m.Name, "=") {
+					// the collection is replaced by a copy of itself (same elements, a table built by the
+					// copying command) while the iteration is open
+					if len(present) == 0 || !scanVia(sc.Kind, m.Name[1:], do) {
+						res = scanResult{Status: "skip"}
+						done = true
+						return
 					}
 					lastMutCall = calls
 					mi++
@@ -541,12 +609,21 @@ func scanWorker(tier string) {
 	}
 }
 
-func runScanCheck(tier string, rep *Report) {
+func runScanCheck(tier string, rep *Report) { runScanCheckSel(tier, rep, "", "") }
+
+// runScanCheckSel: the iteration histories whose scenario name starts with sel; with a key prefix
+// the coverage is recorded under prefixed keys (the histories of HSCAN are also part of C04's
+// check, those of SSCAN of C05's, those of SCAN of C06's: the properties of the families include
+// the family's iterator)
+func runScanCheckSel(tier string, rep *Report, sel, keyPrefix string) {
 	scs := scanScenarios(tier)
 	type job struct{ t scanTask }
 	var jobs []scanTask
 	total := 0
 	for si := range scs {
+		if !strings.HasPrefix(scs[si].Name, sel) {
+			continue
+		}
 		n := len(scs[si].plans())
 		total += n
 		chunk := 400
@@ -619,6 +696,21 @@ func runScanCheck(tier string, rep *Report) {
 			sc := scs[r.Task.Scenario]
 			rep.add(sc.Name+"|"+v.Sig, v.Detail, map[string]any{"scenario": sc.Name, "plan_index": r.VPlans[i], "trace": v.Trace})
 		}
+	}
+	if keyPrefix != "" {
+		rep.Coverage[keyPrefix+"states"] = len(states)
+		rep.Coverage[keyPrefix+"commands"] = cmds
+		rep.Coverage[keyPrefix+"histories_planned"] = total
+		rep.Coverage[keyPrefix+"histories_completed"] = ok
+		rep.Coverage[keyPrefix+"histories_with_table_resize_mid_iteration"] = resized
+		rep.Coverage[keyPrefix+"per_scenario_histories"] = perScenario
+		if expired {
+			rep.Coverage["exhaustive"] = false
+		}
+		if n, isInt := rep.Coverage["traces_validated_against_impl"].(int); isInt {
+			rep.Coverage["traces_validated_against_impl"] = n + ok
+		}
+		return
 	}
 	rep.Coverage["states"] = len(states)
 	rep.Coverage["transitions"] = cmds
